@@ -458,6 +458,12 @@ fn c14_shard(ctx: &Ctx, out: &mut ShardOut) {
         cl.push(("removals_within_2_of_threshold", s.removal_near_threshold));
         Ok(CaseInfo { nontrivial: s.removal_near_threshold > 0, classes: cl, evaluations: s.steps.max(1), sub_hashes: vec![] })
     });
+    // the same policy predicate under colliding hashers and mixed key maps (overfull bins in tables
+    // shorter than 64 may grow the table; crowded bins in 64-bin and longer tables must not)
+    drive(ctx, "map-collide", ctx.shard_seed(3), ctx.share(ctx.by_tier(12_000, 150_000)) as u32, seq_case_strategy(false, 160), out, |c| {
+        let s = run_map_case(c, C14_OR).map_err(|f| to_casefail("C14", f))?;
+        Ok(CaseInfo { nontrivial: s.treeify > 0 || s.resizes > 0, classes: vec![("colliding_cases_with_tree_bins", (s.treeify > 0) as u64), ("colliding_cases_with_resizes", (s.resizes > 0) as u64)], evaluations: s.steps.max(1), sub_hashes: vec![] })
+    });
     // capacity sweep: an enumeration, sharded by residue class
     let max_c: u32 = ctx.by_tier(6000, 20_000) as u32;
     let mut cases: Vec<SweepCase> = (0..=max_c).map(|c| SweepCase { kind: 0, c, pre: 0 }).collect();
